@@ -477,19 +477,22 @@ def Ref.value (vs : List Elt) : Ref → Elt
   | .ext v => v
   | .slot i => vs.getD i deadVal
 
+/-- replace the range `[p, q)` of `vs` by `ws` -/
+def splice (vs : List Elt) (p q : Nat) (ws : List Elt) : List Elt := vs.take p ++ (ws ++ vs.drop q)
+
 def spec (vs : List Elt) : Op → List Elt
   | .pushBack r => vs ++ [r.value vs]
   | .pushBackMove v => vs ++ [v]
   | .emplaceBack v => vs ++ [v]
   | .pushBackDefault => vs ++ [defaultVal]
   | .popBack => vs.take (vs.length - 1)
-  | .insert p r => vs.take p ++ r.value vs :: vs.drop p
-  | .emplace p v => vs.take p ++ v :: vs.drop p
-  | .insertN p n r => vs.take p ++ (List.replicate n (r.value vs) ++ vs.drop p)
-  | .insertRange p ws => vs.take p ++ (ws ++ vs.drop p)
-  | .erase f l => vs.take f ++ vs.drop l
-  | .eraseOne p => vs.take p ++ vs.drop (p + 1)
-  | .eraseFast p => if p + 1 = vs.length then vs.take p else vs.take p ++ vs.getD (vs.length - 1) deadVal :: (vs.drop (p + 1)).take (vs.length - p - 2)
+  | .insert p r => splice vs p p [r.value vs]
+  | .emplace p v => splice vs p p [v]
+  | .insertN p n r => splice vs p p (List.replicate n (r.value vs))
+  | .insertRange p ws => splice vs p p ws
+  | .erase f l => splice vs f l []
+  | .eraseOne p => splice vs p (p + 1) []
+  | .eraseFast p => (vs.set p (vs.getD (vs.length - 1) deadVal)).take (vs.length - 1)   -- last element takes the place
   | .clear => []
   | .resize n => if n ≤ vs.length then vs.take n else vs ++ List.replicate (n - vs.length) defaultVal
   | .resizeFill n r => if n ≤ vs.length then vs.take n else vs ++ List.replicate (n - vs.length) (r.value vs)
@@ -500,8 +503,8 @@ def spec (vs : List Elt) : Op → List Elt
   | .fill r => List.replicate vs.length (r.value vs)
   | .deallocate => []
   | .setElt i v => vs.set i v
-  | .viewFill off _ off2 len2 r => vs.take (off + off2) ++ (List.replicate len2 (r.value vs) ++ vs.drop (off + off2 + len2))
-  | .viewAssign off ws => vs.take off ++ (ws ++ vs.drop (off + ws.length))
+  | .viewFill off _ off2 len2 r => splice vs (off + off2) (off + off2 + len2) (List.replicate len2 (r.value vs))
+  | .viewAssign off ws => splice vs off (off + ws.length) ws
 
 /-- abstraction function: the values of the first `size` cells -/
 def abs (a : Arr) : List Elt := (a.cells.take a.size).map (fun c => c.getD deadVal)
@@ -569,6 +572,17 @@ def wlegal (mx : Nat) (w : World) : WOp → Bool
 def wrefOK (w : World) : WOp → Bool
   | .on k op => refOK (w.get k) op
   | _ => true
+
+/-- the specification at the level of several `std::vector`s -/
+def wspec (vss : List (List Elt)) : WOp → List (List Elt)
+  | .on k op => vss.set k (spec (vss.getD k []) op)
+  | .swap i j => (vss.set i (vss.getD j [])).set j (vss.getD i [])
+  | .moveAssign i j => (vss.set i (vss.getD j [])).set j (vss.getD i [])      -- documented: swaps
+  | .copyAssign i j => vss.set i (vss.getD j [])
+  | .copyCtor i j => vss.set i (vss.getD j [])
+  | .moveCtor i j => if i = j then vss else (vss.set i (vss.getD j [])).set j []
+  | .viewCopy i off j off2 len =>
+    vss.set i (splice (vss.getD i []) off (off + len) (((vss.getD j []).drop off2).take len))
 
 def wrun (mx : Nat) (w : World) : List WOp → World
   | [] => w
